@@ -28,6 +28,7 @@ type decCase struct {
 	Input  evid.Hex `json:"input"`
 	Uplink bool     `json:"uplink"`
 	Key    evid.Hex `json:"key,omitempty"`
+	Ops    []int    `json:"ops,omitempty"` // phy entries: a history of method calls applied to ONE decoded frame
 }
 
 const watchdog = 10 * time.Second
@@ -138,6 +139,28 @@ func phyChain(c *decCase, text bool) func(b []byte) bool {
 				if len(m.FHDR.FOpts)+len(m.FRMPayload) > len(b)+2 {
 					panic(fmt.Sprintf("decoded %d+%d payload items from %d bytes", len(m.FHDR.FOpts), len(m.FRMPayload), len(b)))
 				}
+			}
+		}
+		// a generated history of calls on one decoded value (a decode after a decode, a decode after a decrypt, ...)
+		if len(c.Ops) > 0 {
+			q, _ := decode()
+			methods := []func(){
+				func() { _ = q.DecodeFOptsToMACCommands() },
+				func() { _ = q.DecodeFRMPayloadToMACCommands() },
+				func() { _ = q.DecryptFOpts(k) },
+				func() { _ = q.DecryptFRMPayload(k) },
+				func() { _ = q.EncryptFOpts(k) },
+				func() { _ = q.EncryptFRMPayload(k) },
+				func() { _ = q.DecryptJoinAcceptPayload(k) },
+				func() { _ = q.EncryptJoinAcceptPayload(k) },
+				func() { _, _ = q.MarshalBinary() },
+				func() { _, _ = json.Marshal(q) },
+				func() { _, _ = q.ValidateUplinkDataMIC(lorawan.LoRaWAN1_0, 0, 0, 0, k, k) },
+				func() { _ = q.SetDownlinkDataMIC(lorawan.LoRaWAN1_1, 1, k) },
+				func() { _ = q.SetUplinkJoinMIC(k) },
+			}
+			for _, o := range c.Ops {
+				methods[((o%len(methods))+len(methods))%len(methods)]()
 			}
 		}
 		return true
@@ -376,6 +399,7 @@ func genPHY(t *rapid.T) decCase {
 		}
 	}
 	c.Input = b
+	c.Ops = rapid.SliceOfN(rapid.IntRange(0, 12), 0, 8).Draw(t, "ops")
 	return c
 }
 
@@ -594,8 +618,39 @@ func TestProp(t *testing.T) {
 			}
 		})
 
+	evid.Exhaustive(r, t, "short-texts",
+		"every string of length 0..3 over the alphabet {0 1 x X a F g - : T Z . + space quote} through every text entry point (UnmarshalText of the identifier types, DLSettings, HEXBytes, ISO8601Time, PHYPayload) and, as a JSON string and as a bare JSON token, through the backend scalar types and a struct member; same oracle. Non-trivial: accepted text.",
+		true,
+		func(emit func(decCase)) {
+			alpha := []byte("01xXaFg-:TZ.+ \"")
+			var all [][]byte
+			all = append(all, []byte{})
+			for _, a := range alpha {
+				all = append(all, []byte{a})
+				for _, b := range alpha {
+					all = append(all, []byte{a, b})
+					for _, c := range alpha {
+						all = append(all, []byte{a, b, c})
+					}
+				}
+			}
+			for _, txt := range all {
+				for _, n := range textNames {
+					emit(decCase{Entry: "text:" + n, Input: txt})
+				}
+				js, _ := json.Marshal(string(txt))
+				for _, n := range []string{"HEXBytes", "ISO8601Time", "Frequency", "Percentage"} {
+					emit(decCase{Entry: "json:" + n, Input: js})
+					emit(decCase{Entry: "json:" + n, Input: txt})
+				}
+				emit(decCase{Entry: "json:BasePayload", Input: []byte(`{"SenderToken":` + string(js) + `,"SenderID":` + string(js) + `}`)})
+				emit(decCase{Entry: "json:KeyEnvelope", Input: []byte(`{"AESKey":` + string(js) + `}`)})
+				emit(decCase{Entry: "json:ULMetaData", Input: []byte(`{"RecvTime":` + string(js) + `,"DevEUI":` + string(js) + `,"ULFreq":` + string(txt) + `}`)})
+			}
+		}, checkDec)
+
 	evid.Rapid(r, t, "phy-chain",
-		"rapid: PHYPayload.UnmarshalBinary / UnmarshalText (base64, truncated base64, arbitrary strings) on uniform / constant bytes, data frames whose FOpts and port-0 payload are arbitrary bytes, join-accept sized inputs and mutated valid frames (truncate, extend, flip, FOptsLen nibble, overwrite, duplicate); on whatever decodes: Marshal*, JSON, every Validate*, DecodeFOpts/FRMPayloadToMACCommands, Decrypt/EncryptFOpts, Decrypt/EncryptFRMPayload, Decrypt/EncryptJoinAcceptPayload with a key from the case. Oracle: returns normally (panic reported with input), within the watchdog, input bytes and spare capacity unchanged, decoded item count bounded by the input length. Non-trivial: the frame decoder accepted the input (a payload decoder was reached).",
+		"rapid: PHYPayload.UnmarshalBinary / UnmarshalText (base64, truncated base64, arbitrary strings) on uniform / constant bytes, data frames whose FOpts and port-0 payload are arbitrary bytes, join-accept sized inputs and mutated valid frames (truncate, extend, flip, FOptsLen nibble, overwrite, duplicate); on whatever decodes: Marshal*, JSON, every Validate*, DecodeFOpts/FRMPayloadToMACCommands, Decrypt/EncryptFOpts, Decrypt/EncryptFRMPayload, Decrypt/EncryptJoinAcceptPayload with a key from the case, plus a generated history of 0..8 such calls applied to ONE decoded value (decode after decode, decode after decrypt, ...). Oracle: returns normally (panic reported with input), within the watchdog, input bytes and spare capacity unchanged, decoded item count bounded by the input length. Non-trivial: the frame decoder accepted the input (a payload decoder was reached).",
 		150000, 6000000, genPHY, checkDec)
 
 	evid.Rapid(r, t, "binary-decoders",
